@@ -188,7 +188,7 @@ IMPORTS = {
     # its own per-class families
     **{p: [("C09", _memo, True, lambda fam: False),
            ("C09", lambda name: "._reset_evaluation_cache/" in name, False, lambda fam: fam.endswith("._reset_evaluation_cache"))]
-       for p in ("C01", "C02", "C03", "C04", "C05", "C06", "C07")},
+       for p in ("C01", "C02", "C03", "C04", "C05", "C06", "C07", "C14")},
 }
 MAX_REPLAYS = 12
 MIN_OBLIGATIONS = {}
